@@ -1,4 +1,5 @@
 """C18 - pruning of invisible content is conservative."""
+import math
 import random
 
 from picomon import events
@@ -119,8 +120,35 @@ class D(Driver):
             if parts[0][0] != "M":
                 parts = [("M", (r2(0, 60), r2(0, 60)))] + parts
             return "path", gp.render(parts), "mixed_subpaths"
-        if k2 < 0.8:
+        if k2 < 0.74:
             return "path", gp.render(gs.any_outline(rng)), "outline"
+        if k2 < 0.88:
+            # geometry at full float precision (as it is after a transform has been applied):
+            # an outline, or a closed path that runs back over its own straight edge around a curve loop
+            if rng.random() < 0.5:
+                o = gs.any_outline(rng)
+                lab = "outline_transformed"
+            else:
+                x0, y0 = r2(0, 40), r2(20, 60)
+                L = r2(5, 20)
+                t = r2(0.1, 0.6) * L
+                c1 = (x0 + r2(5, 40), y0 - L + r2(-15, 15))
+                c2 = (x0 + r2(-30, 10), y0 - L - r2(5, 40))
+                o = [("M", (x0, y0)), ("L", (x0, y0 - L)), ("C", c1 + c2 + (x0, y0 - L - t)), ("Z", ())]
+                lab = "retrace_then_loop_transformed"
+            th, sk = rng.uniform(0, 6.283), math.tan(rng.uniform(-0.6, 0.6))
+            sx, sy = rng.uniform(0.5, 2.0), rng.uniform(0.5, 2.0)
+            a, b, c, d = sx * math.cos(th), sx * math.sin(th), sy * (sk * math.cos(th) - math.sin(th)), sy * (sk * math.sin(th) + math.cos(th))
+            e, f = rng.uniform(-20, 40), rng.uniform(-20, 40)
+            o2 = []
+            for cmd, args in o:
+                if cmd in "MLCQ":
+                    o2.append((cmd, tuple(v for i in range(0, len(args), 2) for v in (a * args[i] + c * args[i + 1] + e, b * args[i] + d * args[i + 1] + f))))
+                elif cmd in "Zz":
+                    o2.append((cmd, ()))
+                else:
+                    return "path", gp.render(o), "outline"  # relative / arc commands: leave untransformed
+            return "path", gp.render(o2), lab
         cmds = gp.random_cmds(rng, rng.randint(2, 8), scale=50.0)
         return "path", gp.render(cmds), "random_path"
 
@@ -255,7 +283,7 @@ class D(Driver):
                 gt, why = paintmon.ground_truth(sh)
             except Exception:
                 gt, why = "unknown", ""
-            truths.append((f"s{i}", gt, why, paintmon.describe(sh)))
+            truths.append((f"s{i}", gt, why, paintmon.describe(sh), sh))
             els.append("<%s %s/>" % (tag, " ".join(f'{k}="{v}"' for k, v in attrs.items())))
         doc = '<svg xmlns="http://www.w3.org/2000/svg" viewBox="0 0 100 100">' + "".join(els) + "</svg>"
         res["evals"] += 1
@@ -276,11 +304,12 @@ class D(Driver):
                 raise
             bump(res["counters"], "doc_res_exception." + type(e).__name__)
         kept = {e.get("id") for e in ET.fromstring(s).iter() if e.get("id")}
-        for sid, gt, why, desc in truths:
+        for sid, gt, why, desc, sh in truths:
             if gt == "paints":
                 bump(res["counters"], "doc_shapes_paint")
                 if sid not in kept:
-                    res["viol"].append(dict(rule="painting_shape_removed", sig="remove_unpainted_shapes:painting_shape_removed",
+                    mech = "skia-simplify-empties-painted-outline" if why.startswith("interior point") and paintmon.engine_collapses(sh) else None
+                    res["viol"].append(dict(rule="painting_shape_removed", sig="remove_unpainted_shapes:painting_shape_removed" + (f":{mech}" if mech else ""), mech=mech,
                                             msg=f"remove_unpainted_shapes dropped {desc}, which paints ({why})", replay={"kind": "doc", "doc": doc}))
             elif gt == "nothing":
                 bump(res["counters"], "doc_shapes_nothing_" + ("kept" if sid in kept else "removed"))
